@@ -654,12 +654,14 @@ PROPS["C02"] = {
 PROPS["C10"] = {
     "title": "Regular offsets follow the true parallel curve",
     "gen_modules": ["Consts", "Basis", "Section", "Lines", "FatLine", "Walk", "Fit", "PointInPath", "Offset"],
+    "props_modules": ["C10", "C10Inflect"],
     "corr_n": (4000, 100000),
     "search_n": (600, 20000),
     "technique": "Lean 4 theorems over definitions translated from the Rust source on every run (offset_lms_sampling, offset, offset_scaling, the whole body of subdivide_offset, "
                  "offset_by_scaling/moving, tangent_at_pos/normal_at_pos, to_unit_vector, characterize/features_for_cubic_bezier) + a fuel knot for the recursion "
                  "+ bit-exact Float mirror of every translated piece against the public API + search on the real code for the numerical part",
-    "level_text": "Partial. PROVED for every curve, every feature class and EVERY feature parameter, both signs of d, over any ordered field (sqrt abstract: non-negative square root): "
+    "level_text": "Partial. find_inflection_points_complete / _sound (Props/C10Inflect): in the canonical form the generated find_inflection_points returns EXACTLY the roots in [0,1] of a*t^2 + b*t - 1 (a = -3+x+y, b = 3-x) "
+                  "whenever |a| > f64::EPSILON (the guard as written; for the real square root) - the parameters at which offset_scaling / offset_lms_sampling cut the curve. " "PROVED for every curve, every feature class and EVERY feature parameter, both signs of d, over any ordered field (sqrt abstract: non-negative square root): "
                   "sections_tile / kept_sections_tile - the (t1,t2) sections that offset_lms_sampling and offset_scaling derive from features_for_curve (incl. the 0.0001/0.9999 snapping and the t1 != t2 filter) "
                   "tile [0,1]: first starts at 0, consecutive ones share their boundary, last ends at 1, 1..4 sections, each with t1 < t2; "
                   "sample_ts_eq / sample_ts_spec - the sample parameters are t1 + (t2-t1)/n*x per section plus a final 1.0: strictly increasing, first exactly 0, last exactly 1, n per section + 1; None iff n < 2; "
